@@ -10,6 +10,7 @@ each class c: the runs must be equal after deleting class-c warnings and have th
 import concurrent.futures as cf
 import json
 import os
+import re
 import shutil
 
 from checks import frontend_common as fc
@@ -47,6 +48,13 @@ def run(ctx):
     shutil.rmtree(wd, ignore_errors=True)
     mkdir(wd)
     ins = [x for x in fc.inputs(ctx, cases, wd) if x[3] is not None]
+    # every single-token mutant (spec/TokMut.tla): whatever is printed must be a complete message about this file, and
+    # an undeclared name at a using position must be quoted by an ERROR
+    tok = [x for x in fc.token_inputs(ctx, cases, wd, 1 if ctx.quick else 6) if x[3]["class"] != "tok_none"]
+    for x in tok:
+        if x[2] == "fault":
+            x[3]["lexeme"], x[3]["mustquote"] = "nosuch_x", True
+    ins += tok
     tbl = diag.table()
     tools = ["check-express", "exp2cxx"] if ctx.quick else fc.TOOLS
     jobs = [(tag, path, m, tool) for tag, path, expect, m, c in ins for tool in tools]
@@ -66,8 +74,9 @@ def run(ctx):
         for tool in tools:
             rc, ds, err = res[(tag, tool)]
             lines.append(json.dumps({"e": "Diags", "tag": tag, "tool": tool, "input": path, "lexeme": m["lexeme"], "code": m["code"],
-                                     "mclass": m["class"],
+                                     "mclass": m["class"], "mustquote": bool(m.get("mustquote")),
                                      "diags": [{"file": x["file"], "code": x["code"], "sev": x["sev"], "cls": x["cls"],
+                                                "quotes": bool(m.get("mustquote")) and bool(re.search(r"(?<![A-Za-z0-9_])%s(?![A-Za-z0-9_])" % re.escape(m["lexeme"]), x["msg"], re.I)),
                                                 "emptyarg": any(a.strip() == "" for a in x["args"]),
                                                 "haslexeme": bool(m["lexeme"]) and x["code"] == m["code"] and lexeme_ok(m, x),
                                                 "msg": x["msg"][:120]} for x in ds]}))
@@ -100,6 +109,8 @@ def run(ctx):
     nfault = 0
     fjobs = []
     for tag, path, expect, m, c in ins:
+        if m["class"].startswith("tok_"):
+            continue
         own = named_code.get(m["code"])
         pick = names if (own and not ctx.quick) else ([own] if own else (names[:2] if not ctx.quick else []))
         for cls in pick:
@@ -132,7 +143,7 @@ def run(ctx):
         if ev["e"] == "Diags":
             path, m, c = byin[ev["tag"]]
             if True:
-                key = "%s|%s|%s" % (rep["what"], m["class"], ev["tool"])
+                key = "%s|%s|%s" % (rep["what"], m["class"] + (m["pos"] if m["class"].startswith("tok_") else ""), ev["tool"])
             ctx.violation(key, "%s: %s on mutant %s (offending lexeme %r, expected family %s); printed: %s" % (
                 rep["what"], ev["tool"], m["class"], m["lexeme"], m["code"], "; ".join(d["msg"] for d in ev["diags"])[:300]),
                 {"mutant": m, "input": open(path, encoding="latin-1").read(), "event": ev})
